@@ -862,6 +862,15 @@ func TestC10Enum(t *testing.T) {
 						}
 						continue
 					}
+					if k == "trunc-bytes" {
+						// a prefix of every length class of the encoded message
+						for _, a := range []int{0, 1, 2, 9, 17, 33, 40, 41, 73, 97, 105, 129, 1 << 20} {
+							c := C10Case{RPC: rpc, N: ps.n, P: ps.p, Mut: rhpc.Mut{Msg: msg, Kind: k, A: a}}
+							cs := &kit.CaseStats{}
+							report(c, cs, c10Prop.SafeRun(c, cs))
+						}
+						continue
+					}
 					for vi, v := range variants {
 						if vi > 0 && (k == "rpc-error" || k == "close" || strings.HasSuffix(k, "-zero") || strings.HasSuffix(k, "-empty")) {
 							continue
